@@ -350,11 +350,52 @@ theorem op_starts_row (n k : Nat) (masks : List (Nat → Bool)) (b : Nat) (hb : 
     rw [Nat.mul_comm, Nat.mul_add_mod, Nat.mod_eq_of_lt hb]
   have hdiv : (j * masks.length + b) / masks.length = j := by
     rw [Nat.mul_comm, Nat.mul_add_div (by omega : masks.length > 0), Nat.div_eq_of_lt hb, Nat.add_zero]
-  simp [opStarts, List.getD_eq_getElem?_getD, hlt, hmod, hdiv]
+  simp [opStarts, Params.opsOpReplicaMajor, List.getD_eq_getElem?_getD, hlt, hmod, hdiv]
 
 /-- OP's default number of starts is the number of customers -/
 theorem op_default_starts (n : Nat) : envGetNumStarts "op" (n + 1) (n + 1) = n := by
   simp [envGetNumStarts, getNumStarts, depotList, Params.opsNumStartsDepotEnvs]
+
+/-! ### the decoding hooks and `sample_n_random_actions` -/
+
+/-- **C12 `hookRule_eq_envRule`**: the forced starts of `DecodingStrategy.pre_decoder_hook` (multistart) and of
+`BeamSearch.pre_decoder_hook` (beam search) are those of the environment's own `select_start_nodes` method —
+the overrides of PDP / MTVRP / FLP / MCP (and OP's feasible-node rule) are not bypassed. -/
+theorem hookRule_eq_envRule (beam : Bool) (env : String) (g a l : Nat) : hookRule beam env g a l = envRule env g a l := by
+  cases beam <;> simp [hookRule, Params.decBeamEnvSelect, Params.decMultistartEnvSelect]
+
+/-- where the distinction matters: the generic helper would give PDP all `num_loc` nodes instead of its pickups -/
+example : genericRule "pdp" 6 = (1, 6) ∧ envRule "pdp" 6 7 7 = (1, 3) := by
+  simp [genericRule, envRule, Params.opsNoDepotStartEnvs]
+
+theorem all_range {n : Nat} {p : Nat → Bool} (h : (List.range n).all p = true) (r : Nat) (hr : r < n) :
+    p r = true := by
+  rw [List.all_eq_true] at h
+  exact h r (List.mem_range.mpr hr)
+
+theorem sampleNRows_eq (B n b : Nat) (sel : List Nat) : sampleNRows B n b sel = instStarts B n b sel := by
+  simp [sampleNRows, Params.opsSampleNReplicaMajor]
+
+/-- **C12 `sampleN_rows`**: whatever `sample_n_random_actions` draws (relation `sampleNOk`), the `n` forced
+actions found at rows `j·B + b` — the rows of instance `b` under the k-major expansion — are feasible for
+instance `b`, and pairwise distinct unless the batch-global replacement branch was taken. -/
+theorem sampleN_rows (w n : Nat) (masks : List (Nat → Bool)) (sel : List Nat)
+    (hok : sampleNOk w n masks sel = true) (b : Nat) (hb : b < masks.length) :
+    (∀ s ∈ instStarts masks.length n b sel, s < w ∧ (masks.getD b (fun _ => false)) s = true) ∧
+    (sampleNReplace w n masks = false → nodupB (instStarts masks.length n b sel) = true) := by
+  simp only [sampleNOk, Bool.and_eq_true, Bool.or_eq_true] at hok
+  obtain ⟨⟨_, hall⟩, hd⟩ := hok
+  have hb' := all_range hall b hb
+  rw [sampleNRows_eq] at hb'
+  refine ⟨?_, ?_⟩
+  · intro s hs
+    have := List.all_eq_true.mp hb' s hs
+    simpa using this
+  · intro hr
+    rcases hd with hd | hd
+    · rw [hr] at hd; exact absurd hd (by decide)
+    · have := all_range hd b hb
+      rwa [sampleNRows_eq] at this
 
 /-! ### best-of-k selection -/
 
